@@ -2288,3 +2288,27 @@ C13_INITIAL_WRAPPER = dict(
     raises=[("must be fully observed", 8)],
 )
 ALL += [C13_SPARSE_COVER, C13_INITIAL_WRAPPER]
+
+# filter_dataset_to_treatments_that_appear_in_at_least_one_combo (data.py).  `arity` = the number of treatment columns;
+# np.unique of ids -> any list of the same elements (only membership is observed); to_screen() runs the Screen constructor,
+# whose checks reduce to the plate-uniform one here ([construct], as in the model)
+C13_COMBO_FILTER = dict(
+    _RG, file="src/batchie/data.py", func="filter_dataset_to_treatments_that_appear_in_at_least_one_combo", name="src_combo_filter",
+    pyparams=["screen"], params=[("ctrl", "name"), ("arity", "nat"), ("screen", "screen_t")], returns="screen_t",
+    vars={"treatment_ids": _TM, "treatment_selection_vector": "bvec", "treatments_to_select": "list tid",
+          "treatments_to_select_plus_controls": "list tid", "filtered_treatment_names": "list name", "screen_selection_vector": "bvec"},
+    prims=[
+        ("__s.treatment_arity", "screen_arity arity", "Z", _ST),
+        ("(__a == CONTROL_SENTINEL_VALUE).reshape(__a.shape)", "is_sentinel2 {a}", "list bvec", {"a": _TM}),
+        ("np.in1d(__a, __l).reshape(__a.shape)", "isin2 {a} {l}", "list bvec", {"a": _TM, "l": "list tid"}),
+        ("np.unique(__s.treatment_names[__v].flatten())", "unique_treatment_names {s} {v}", "list name", {"s": "screen_t", "v": "bvec"}),
+        ("np.unique(__l)", "{l}", "list tid", {"l": "list tid"}),
+        ("np.concatenate([__a, __b])", "{a} ++ {b}", "list tid", {"a": "list tid", "b": "list tid"}),
+        ("__a[__v]", "rows_where {a} {v}", _TM, {"a": _TM, "v": "bvec"}),
+    ] + [p for p in _TID_PRIMS if p[0] != "__s.to_screen()"] + [
+        ("__s.to_screen()", "!construct {s}", "screen_t", {"s": "subset_t"}),
+    ],
+    ignore=["logger.info(__a)"],
+    raises=[("Dataset must have at least 2 treatments", 7)],
+)
+ALL += [C13_COMBO_FILTER]
